@@ -322,3 +322,51 @@ theorem curlen_lt (P : Params S) (hP : P.WF) (buf0 : Bytes) (h0 : buf0.length = 
   rw [hI.cur]; exact hI.lt
 
 end TlxVerif.C14
+
+namespace TlxVerif.C14
+
+variable {S : Type}
+
+/-! ### the string_view overloads: pieces of at most 2^30 bytes -/
+
+theorem svPieces_flatten (data : Bytes) : (svPieces data).flatten = data := by
+  fun_induction svPieces data with
+  | case1 data h ih => simp [ih]
+  | case2 data h => simp
+
+/-- every piece handed to `process(const void*, std::uint32_t)` fits the 32-bit size parameter -/
+theorem svPieces_lt (data : Bytes) : ∀ p ∈ svPieces data, p.length < 2 ^ 32 := by
+  fun_induction svPieces data with
+  | case1 data h ih =>
+    intro p hp
+    rcases List.mem_cons.mp hp with hp | hp
+    · subst hp; rw [List.length_take]; omega
+    · exact ih p hp
+  | case2 data h =>
+    intro p hp
+    simp at hp; subst hp; omega
+
+theorem foldl_processSV (P : Params S) : ∀ (chunks : List Bytes) (c : Ctx S),
+    chunks.foldl (processSV P) c = (chunks.flatMap svPieces).foldl (process P) c
+  | [], c => rfl
+  | ch :: rest, c => by
+    simp only [List.foldl_cons, List.flatMap_cons, List.foldl_append]
+    rw [foldl_processSV P rest]
+    rfl
+
+theorem flatMap_svPieces_flatten : ∀ (chunks : List Bytes), (chunks.flatMap svPieces).flatten = chunks.flatten
+  | [] => rfl
+  | ch :: rest => by
+    simp only [List.flatMap_cons, List.flatten_append, List.flatten_cons, svPieces_flatten,
+      flatMap_svPieces_flatten rest]
+
+/-- chunking independence also through `process(tlx::string_view)` (arbitrarily long strings) -/
+theorem digestOfChunksSV_eq (P : Params S) (hP : P.WF) (buf0 : Bytes) (h0 : buf0.length = P.blockSize)
+    (chunks : List Bytes) :
+    (finalize P (chunks.foldl (processSV P) (P.new buf0))).1 = mdDigest P chunks.flatten := by
+  rw [foldl_processSV]
+  have := digestOfChunks_eq P hP buf0 h0 (chunks.flatMap svPieces)
+  unfold digestOfChunks at this
+  rw [this, flatMap_svPieces_flatten]
+
+end TlxVerif.C14
